@@ -138,6 +138,7 @@ type Interp struct {
 	seqCap     int
 	deadline   time.Time
 	itoaTags   map[*ArrNode]*Term
+	digitTags  map[*Term]*Term
 }
 
 type allocRec struct {
@@ -637,7 +638,7 @@ func (in *Interp) execAllowed(fn *ssa.Function) bool {
 	}
 	switch fn.Pkg.Pkg.Path() {
 	case "errors", "encoding/binary", "unicode/utf16", "unicode/utf8", "io", "math/bits", "sort", "unicode",
-		"github.com/hashicorp/go-multierror", "github.com/hashicorp/errwrap", "internal/itoa", "strconv", "strings", "bytes", "internal/stringslite", "slices", "cmp":
+		"github.com/hashicorp/go-multierror", "github.com/hashicorp/errwrap", "internal/itoa", "strconv", "strings", "bytes", "internal/stringslite", "slices", "cmp", "net/url":
 		return true
 	}
 	return false
